@@ -38,7 +38,7 @@ fi
 say "demo with the change: $RES_WITH (want fail); without: $RES_WITHOUT (want pass)"
 DET=""
 for P in $(echo $PROPS | tr , ' '); do
-  OUT=$(SBPF_REPO=$D /verif/bin/sbpfcheck -prop $P -tier quick -verif "$D/.verif" 2>&1); RC=$?
+  OUT=$(SBPF_REPO=$D ${SBPF_BIN:-/verif/bin/sbpfcheck} -prop $P -tier quick -verif "$D/.verif" 2>&1); RC=$?
   echo "$OUT" | grep -E '^   (VIOLATED|UNDECIDED)' | cut -c1-400 | head -6 | tee -a "$LOG"
   say "check $P: exit=$RC"
   [ $RC -ne 0 ] && DET="$DET $P"
